@@ -169,6 +169,22 @@ def gen_lp(g: gen.Gen, r, kind):
         wexp = (x - 1) if y2 is x or y2.size != n else (x + y2)
         obj = r.choice([lambda: obj - arr(n) @ wexp, lambda: 0.5 * (arr(n) @ wexp) + obj, lambda: -(arr(n) @ wexp) + 2 * obj,
                         lambda: 12 - arr(n) @ wexp + obj])()
+    if r.random() < 0.3:
+        # a binary / integer variable (solved as its relaxation) whose bounds were edited after construction: fixed to a branch,
+        # narrowed, or left alone - the relaxation is over the bounds as they stand
+        flag = gen.Variable(r.choice(["flag", "b_on", "zz_bin", "A0"]), domain=r.choice(["binary", "binary", "integer"]))
+        if flag.lb is None:
+            flag.lb, flag.ub = 0.0, 3.0
+        how = r.randrange(5)
+        if how == 1:
+            flag.ub = 0
+        elif how == 2:
+            flag.lb = 1
+        elif how == 3:
+            flag.lb, flag.ub = 0.25, 0.75
+        elif how == 4:
+            flag.lb, flag.ub = 1, 1
+        obj = obj + r.choice([2.5, -1.5, 4.0]) * flag
     mx = r.random() < 0.5
     P = Problem()
     ref = RefLP()
